@@ -39,6 +39,10 @@ def mesh(name, shift=(0.0, 0.0, 0.0), scale=1.0):
         V = [[0, 0, 0], [1, 0, 0], [0, 1.25, 0], [1, 1, 0.5], [2, 0.25, 0.25]]
         E = [[0, 1, 2], [3, 2, 1], [1, 4, 3]]
         D = [0, 1, 1]
+    elif name == "islands3":  # an adjacent pair and a separate triangle: the only tiny mesh with non-adjacent pairs
+        V = [[0, 0, 0], [1, 0, 0], [0, 1.25, 0], [1, 1, 0.5], [2, 0.25, 0.25], [3, 0, 0.5], [2.25, 1.0, 0]]
+        E = [[0, 1, 2], [3, 2, 1], [4, 5, 6]]
+        D = [0, 1, 1]
     elif name == "fan4":      # four triangles around an interior vertex, open
         V = [[0, 0, 0.25], [1, 0, 0], [0, 1.5, 0], [-1, 0, 0.125], [0, -1, 0]]
         E = [[0, 1, 2], [0, 2, 3], [0, 3, 4], [0, 4, 1]]
